@@ -398,7 +398,7 @@ def handler_cases(ctx, cps, rnd):
             yield "a" + ch + ch + "<", cs
     extra = ["\u20ac", "The cost was \u20ac12.", "\u20ac\u4e16\u20ac", "\\~\u00a5\u203e", "", "plain", "\u00e9\u00e8<\u4e16>&\"'"]
     for cs in CHARSETS:
-        for s in extra + rnd[: (2000 if ctx.quick else 30000)]:
+        for s in extra + rnd[: (2000 if ctx.quick else 20000)]:
             yield s, cs
 
 
@@ -818,7 +818,7 @@ def run_streams(ctx):
     impl = Impl()
     cps = codepoints(ctx)
     shorts = list(short_strings(TOKENS, 3 if ctx.quick else 4))
-    rnd = [random_string(ctx.rng) for _ in range(8000 if ctx.quick else 200000)]
+    rnd = [random_string(ctx.rng) for _ in range(8000 if ctx.quick else 120000)]
     ctx.log("C10: %d code points, %d short strings, %d random strings" % (len(cps), len(shorts), len(rnd)))
     job = start_oracle_child(ctx, cps, shorts, rnd)
     try:
